@@ -562,6 +562,21 @@ def _upstream_predicates(chain):
         return out
 
 
+def counted_elem(c, kind, roles):
+    """pointee type of a counted memory primitive (ptr::copy::<X>(s, d, n) moves n * size_of::<X>() bytes) when X is not
+    a one-byte type; None for byte-counted primitives (the count IS the byte count)"""
+    if "count" not in roles or kind not in ("copy", "write"):
+        return None
+    try:
+        ca = [x.s for x in c.callee_args()]
+    except Exception:
+        ca = []
+    if not ca:
+        return None
+    x = ca[0]
+    return None if x in ("u8", "i8", "()", "bool", "std::ffi::c_void", "core::ffi::c_void") else x
+
+
 def write_sites(prog, eff):
     """All guest-write candidates: primitive call sites with a `dst` role, plus raw-pointer deref assignments.
     Yields dict(body, call, kind, dst_term, count_term)"""
@@ -574,7 +589,8 @@ def write_sites(prog, eff):
             if "dst" not in roles:
                 continue
             yield {"body": b, "call": c, "kind": kind, "dst": c.arg(roles["dst"]),
-                   "count": c.arg(roles["count"]) if "count" in roles else None, "pos": c.pos, "ln": c.line}
+                   "count": c.arg(roles["count"]) if "count" in roles else None, "pos": c.pos, "ln": c.line,
+                   "elem": counted_elem(c, kind, roles)}
         for pos, s in b.stmts():
             if s["k"] == "assign" and "p" in s["lhs"] and s["lhs"]["p"] and s["lhs"]["p"][0] == '*':
                 l = s["lhs"]["l"]
